@@ -109,6 +109,8 @@ def detectencoding_str(input, final=False):  # noqa: C901
                     )
                 if c != b"\xfe"[0]:
                     candidates &= ~CANDIDATE_UTF_32_AS_BE
+                if c != b"\x00"[0]:
+                    candidates &= ~CANDIDATE_UTF_16_BE
                 if c != b"h"[0]:
                     candidates &= ~CANDIDATE_CHARSET
                 if li >= 4:
@@ -126,6 +128,8 @@ def detectencoding_str(input, final=False):  # noqa: C901
                         candidates &= ~CANDIDATE_UTF_32_AS_BE
                     if c != b"@"[0]:
                         candidates &= ~CANDIDATE_UTF_32_BE
+                    if c != b"c"[0]:
+                        candidates &= ~CANDIDATE_UTF_16_BE
                     if c != b"a"[0]:
                         candidates &= ~CANDIDATE_CHARSET
     if candidates == 0:
@@ -139,7 +143,7 @@ def detectencoding_str(input, final=False):  # noqa: C901
             return ("utf-16", True)
         elif candidates == CANDIDATE_UTF_16_LE and li >= 4:
             return ("utf-16-le", False)
-        elif candidates == CANDIDATE_UTF_16_BE and li >= 2:
+        elif candidates == CANDIDATE_UTF_16_BE and li >= 4:
             return ("utf-16-be", False)
         elif candidates == CANDIDATE_UTF_32_AS_LE and li >= 4:
             return ("utf-32", True)
